@@ -1646,6 +1646,16 @@ func session(run *vh.Run, r *rand.Rand, backends []*backend, tlsBackend *backend
 	obs = append(obs, observe())
 
 	tickTerm := "HTick"
+	// A history is an ORDER of actions and real cleanup ticks.  The actions stay 900 ms clear of the
+	// moment the cleanup loop wakes up; on a stalled machine one of them can still run into that
+	// moment, and then the order is not known: such a history is not judged (counted in the notes,
+	// never reported), the calls in it are judged on their own as CCall cases all the same.
+	overrun := ""
+	guard := func(what string) {
+		if overrun == "" && time.Until(t0.Add(time.Duration(ticks+1)*period)) < 250*time.Millisecond {
+			overrun = what
+		}
+	}
 	awaitTick := func() {
 		next := t0.Add(time.Duration(ticks+1) * period)
 		time.Sleep(time.Until(next.Add(500 * time.Millisecond)))
@@ -1669,6 +1679,9 @@ func session(run *vh.Run, r *rand.Rand, backends []*backend, tlsBackend *backend
 			}
 			time.Sleep(10 * time.Millisecond)
 		}
+		if !time.Now().Before(deadline) && overrun == "" {
+			overrun = "connection ends after a real tick not in within 8 s"
+		}
 		time.Sleep(30 * time.Millisecond)
 		steps = append(steps, tickTerm)
 		obs = append(obs, observe())
@@ -1691,10 +1704,12 @@ func session(run *vh.Run, r *rand.Rand, backends []*backend, tlsBackend *backend
 			steps = append(steps, vh.App("HSetTable", tableCoq(curTbl)))
 			obs = append(obs, observe())
 			ssample = append(ssample, "table")
+			guard("table change")
 			continue
 		}
 		calls++
 		res, ok := doOne(r, callers[r.Intn(len(callers))], curTbl, curTxt, unreachablePlain, calls, "")
+		guard("call")
 		if !ok {
 			continue
 		}
@@ -1715,14 +1730,22 @@ func session(run *vh.Run, r *rand.Rand, backends []*backend, tlsBackend *backend
 		run.Add(res.class, vh.App("CCall", tableCoq(curTbl), vh.Bool(noglob), vh.Bool(false), downTerm, res.ciTerm, hchosen, res.bvT, cviewCoq(res.cv)), res.sample)
 	}
 	// one more real tick on an empty table: everything is dropped
+	if until := time.Until(t0.Add(time.Duration(ticks+1) * period)); until < 900*time.Millisecond {
+		awaitTick()
+	}
 	curTbl = setTable("")
 	steps = append(steps, vh.App("HSetTable", "[]"))
 	obs = append(obs, observe())
+	guard("table change")
 	awaitTick()
 	run.Notes["session_calls"] = calls
 	run.Notes["session_real_ticks"] = ticks - startTicks
-	run.Add("session", vh.App("CHistory", vh.Bool(noglob), vh.Bool(false), downTerm, vh.List(steps), vh.List(obs)),
-		map[string]interface{}{"steps": len(steps), "ticks": ticks - startTicks, "first": ssample[:min(len(ssample), 40)]})
+	if overrun != "" {
+		run.Notes["session_history_not_judged_machine_stalled"] = overrun
+	} else {
+		run.Add("session", vh.App("CHistory", vh.Bool(noglob), vh.Bool(false), downTerm, vh.List(steps), vh.List(obs)),
+			map[string]interface{}{"steps": len(steps), "ticks": ticks - startTicks, "first": ssample[:min(len(ssample), 40)]})
+	}
 
 	// ---- backends that lose their connections while they stay in the table ----
 	// The pooled *grpc.ClientConn is a channel, not a connection: when the backend is restarted
@@ -1738,6 +1761,7 @@ func session(run *vh.Run, r *rand.Rand, backends []*backend, tlsBackend *backend
 			base[i] = [2]int64{atomic.LoadInt64(&b.begins), atomic.LoadInt64(&b.ends)}
 		}
 		steps, obs, ssample = nil, nil, nil
+		overrun = ""
 		tickTerm = "(XH HTick)"
 		genX := func() (route.Table, string) {
 			_, txt := genTable(xr, burls, 6, true)
@@ -1780,6 +1804,7 @@ func session(run *vh.Run, r *rand.Rand, backends []*backend, tlsBackend *backend
 			steps = append(steps, vh.App("XHLose", vh.HxS(b.url)))
 			obs = append(obs, observe())
 			ssample = append(ssample, kind+" "+b.url)
+			guard("lost connections")
 		}
 		nX := run.Scale(110, 700)
 		xcalls, afterLoss, losses := 0, 0, 0
@@ -1807,10 +1832,12 @@ func session(run *vh.Run, r *rand.Rand, backends []*backend, tlsBackend *backend
 				steps = append(steps, vh.App("XH", vh.App("HSetTable", tableCoq(curTbl))))
 				obs = append(obs, observe())
 				ssample = append(ssample, "table")
+				guard("table change")
 				continue
 			}
 			xcalls++
 			res, ok := doOne(xr, callers[xr.Intn(len(callers))], curTbl, curTxt, map[string]bool{}, xcalls, "")
+			guard("call")
 			if !ok {
 				continue
 			}
@@ -1839,6 +1866,9 @@ func session(run *vh.Run, r *rand.Rand, backends []*backend, tlsBackend *backend
 		// the end: one connected backend loses its connection and leaves the table together with
 		// the others, except one; the next real tick drops their channels (one without a transport)
 		endTxt := ""
+		if until := time.Until(t0.Add(time.Duration(ticks+1) * period)); until < 1500*time.Millisecond {
+			awaitTick()
+		}
 		if cs := connected(); len(cs) > 0 {
 			k := xr.Intn(len(cs))
 			lose(cs[k], xr.Intn(2) == 0)
@@ -1851,13 +1881,18 @@ func session(run *vh.Run, r *rand.Rand, backends []*backend, tlsBackend *backend
 		curTbl = setTable(endTxt)
 		steps = append(steps, vh.App("XH", vh.App("HSetTable", tableCoq(curTbl))))
 		obs = append(obs, observe())
+		guard("table change")
 		awaitTick()
 		tickTerm = "HTick"
 		run.Notes["reconnect_calls"] = xcalls
 		run.Notes["reconnect_losses"] = losses
 		run.Notes["reconnect_calls_reaching_a_backend_after_its_loss"] = afterLoss
-		run.Add("session-backends-lose-connections", vh.App("CHistoryX", vh.Bool(noglob), vh.Bool(false), downTerm, vh.List(steps), vh.List(obs)),
-			map[string]interface{}{"steps": len(steps), "losses": losses, "calls_after_loss": afterLoss, "first": ssample[:min(len(ssample), 60)]})
+		if overrun != "" {
+			run.Notes["reconnect_history_not_judged_machine_stalled"] = overrun
+		} else {
+			run.Add("session-backends-lose-connections", vh.App("CHistoryX", vh.Bool(noglob), vh.Bool(false), downTerm, vh.List(steps), vh.List(obs)),
+				map[string]interface{}{"steps": len(steps), "losses": losses, "calls_after_loss": afterLoss, "first": ssample[:min(len(ssample), 60)]})
+		}
 	}
 
 	// the TLS listener: its tls.Config is what the director's pool gets, so grpcs targets are
